@@ -11,6 +11,28 @@ def V(rec, key, detail, truth):
     return dict(key=key, case=rec['case'], variant=rec.get('variant'), detail=detail[:2000], desc=truth, section=rec.get('section'))
 
 
+def passes_of(truth):
+    """one entry per pass over the registry: is the run-ignored option in force during that pass?"""
+    p = truth.get('run_ignored_in_pass')
+    return list(p) if p is not None else [False] * truth['repeat']
+
+
+def as_executed(t, run_ignored, r=0):
+    """the test as one pass sees it: an IGNORE_TEST is an ignored test of the pass unless the pass runs ignored tests (option of the
+    run, or setRunIgnored() on the shell itself); then it is executed and does what its body does. An ignored test does nothing."""
+    skipped = bool(t['ignored']) and not (run_ignored or t.get('shell_run_ignored'))
+    e = dict(t, ignored=skipped, declared_ignored=bool(t['ignored']), run_ignored_option=bool(run_ignored), renamed=False)
+    names = t.get('name_in_pass')
+    if names:
+        # the tests may be renamed between two passes: each pass is reported under the names of that pass
+        e['name'] = names[r]
+        e['renamed'] = r > 0 and names[r] != names[r - 1]
+    if skipped:
+        e['failures'] = []
+        e['prints'] = []
+    return e
+
+
 # ------------------------------------------------------------------ C16
 def parse_xml(text):
     """returns a tree of (name, attrs, children, text) using expat (standards-conforming, non-validating)"""
@@ -52,13 +74,14 @@ def judge_junit(rec, counters):
     truth = obs['truth']
     pkg = truth['package']
     files = obs['files']
-    rep = truth['repeat']
+    ri_pass = passes_of(truth)
+    rep = len(ri_pass)
     filtered = bool(truth.get('filtered'))
     # the run as the output object gets to see it: per repetition, per group, the tests the filters select (run order)
     plan = []
     for r in range(rep):
         for g in truth['groups']:
-            plan.append((r, g, [t for t in g['tests'] if t.get('selected', True)]))
+            plan.append((r, g, [as_executed(t, ri_pass[r], r) for t in g['tests'] if t.get('selected', True)]))
     if not filtered:
         if len(files) != len(plan):
             out.append(V(rec, 'junit:file-count', 'expected %d files (one per group per repetition), captured %d: %r' % (len(plan), len(files), [f['name'] for f in files]), truth))
@@ -122,8 +145,10 @@ def judge_junit(rec, counters):
         for t, cnode in zip(sel, cases):
             ca = cnode['attrs']
             counters['junit_testcases_checked'] = counters.get('junit_testcases_checked', 0) + 1
+            if t['renamed']:
+                counters['junit_renamed_tests_checked'] = counters.get('junit_renamed_tests_checked', 0) + 1
             if ca.get('name') != t['name']:
-                out.append(V(rec, 'junit:testcase-name', 'name %r, test %r' % (ca.get('name'), t['name']), truth))
+                out.append(V(rec, 'junit:testcase-name' + (':test-renamed-since-the-previous-pass' if t['renamed'] else ''), 'name %r, test %r' % (ca.get('name'), t['name']), truth))
             if ca.get('file') != t['file']:
                 out.append(V(rec, 'junit:testcase-file', 'file %r, true %r' % (ca.get('file'), t['file']), truth))
             if ca.get('line') != str(t['line']):
@@ -133,8 +158,16 @@ def judge_junit(rec, counters):
                 out.append(V(rec, 'junit:testcase-classname', 'classname %r, expected %r' % (ca.get('classname'), want_class), truth))
             skipped = [n for n in cnode['children'] if n['name'] == 'skipped']
             failure = [n for n in cnode['children'] if n['name'] == 'failure']
+            if t['declared_ignored']:
+                what = 'junit_ignore_tests_skipped_checked' if t['ignored'] else 'junit_ignore_tests_executed_failing_checked' if t['failures'] else 'junit_ignore_tests_executed_passing_checked'
+                counters[what] = counters.get(what, 0) + 1
             if bool(skipped) != bool(t['ignored']):
-                out.append(V(rec, 'junit:skipped-marker', 'skipped marker %s for a test that is %s' % ('present' if skipped else 'absent', 'ignored' if t['ignored'] else 'not ignored'), truth))
+                key, how = 'junit:skipped-marker', 'ignored' if t['ignored'] else 'not ignored'
+                if t['declared_ignored'] and not t['ignored']:
+                    # an IGNORE_TEST that this pass executed (run-ignored) is no ignored test of the run
+                    key += ':ignore-test-executed-under-run-ignored'
+                    how = 'an IGNORE_TEST executed in pass %d of %d (run-ignored %s)' % (r + 1, rep, 'option on' if t['run_ignored_option'] else 'set on the shell')
+                out.append(V(rec, key, 'skipped marker %s for a test that is %s' % ('present' if skipped else 'absent', how), truth))
             if bool(failure) != bool(t['failures']) or len(failure) > 1:
                 out.append(V(rec, 'junit:failure-element', '%d failure elements for a test with %d failures' % (len(failure), len(t['failures'])), truth))
             elif failure:
@@ -277,13 +310,20 @@ def judge_teamcity(rec, counters):
     filtered = bool(truth.get('filtered'))
     # expected event sequence
     exp = []
-    for r in range(truth['repeat']):
+    ri_pass = passes_of(truth)
+    for r in range(len(ri_pass)):
         for g in truth['groups']:
             exp.append(('testSuiteStarted', g['name'], None))
             for t in g['tests']:
                 if not t.get('selected', True):
                     continue
-                exp.append(('testStarted', t['name'], None))
+                t = as_executed(t, ri_pass[r], r)
+                if t['renamed']:
+                    counters['teamcity_renamed_tests_expected'] = counters.get('teamcity_renamed_tests_expected', 0) + 1
+                if t['declared_ignored']:
+                    what = 'teamcity_ignore_tests_skipped_expected' if t['ignored'] else 'teamcity_ignore_tests_executed_expected'
+                    counters[what] = counters.get(what, 0) + 1
+                exp.append(('testStarted', t['name'], t))
                 if t['ignored']:
                     exp.append(('testIgnored', t['name'], None))
                 for fl in t['failures']:
@@ -332,7 +372,7 @@ def judge_teamcity(rec, counters):
         if got_tests != want_tests:
             out.append(V(rec, 'teamcity:filtered-run:test-events-differ', 'got %r expected %r' % (got_tests[:12], want_tests[:12]), truth))
         cur = None
-        gi = iter([g for r in range(truth['repeat']) for g in truth['groups'] for t in g['tests'] if t.get('selected', True)])
+        gi = iter([g for r in range(len(ri_pass)) for g in truth['groups'] for t in g['tests'] if t.get('selected', True)])
         for name, attrs in msgs:
             if name == 'testSuiteStarted':
                 cur = attrs.get('name')
@@ -351,8 +391,14 @@ def judge_teamcity(rec, counters):
         kind = 'missing-or-extra'
         if k < len(got) and k < len(want):
             kind = 'kind' if got[k][0] != want[k][0] else 'name-decoding'
+            tt = exp[k][2] if want[k][0] == 'testStarted' else None
+            if kind == 'name-decoding' and tt and tt['renamed']:
+                kind += ':test-renamed-since-the-previous-pass'
             if want[k][0] == 'testIgnored' or got[k][0] == 'testIgnored':
                 kind = 'ignored-marker'
+                started = exp[k - 1][2] if k and exp[k - 1][0] == 'testStarted' else None
+                if got[k][0] == 'testIgnored' and started and started['declared_ignored'] and not started['ignored']:
+                    kind += ':ignore-test-executed-under-run-ignored'
         out.append(V(rec, 'teamcity:sequence-differs:' + kind, 'event %d: got %r expected %r' % (k, got[k] if k < len(got) else None, want[k] if k < len(want) else None), truth))
         return out
     for (name, attrs), (_, _, extra) in zip(msgs, exp):
